@@ -417,40 +417,60 @@ RANK_ORDER = {("upper", "FUNCTION"): 1, ("upper", "CONSTANT"): 2, ("upper", "NON
               ("lower", "FUNCTION"): 4, ("lower", "CONSTANT"): 5, ("lower", "NONE"): 6}
 
 
-def _shape_offsets(S, fi, M: Masks, e: ast.AST, bases: set, depth: int = 0) -> list:
-    """rank offsets (number of axes appended to the shape of the input) of a result-shape expression, one per arm"""
+def _shape_offsets(S, fi, M: Masks, e: ast.AST, bases: set, depth: int = 0, shapes: frozenset = frozenset()) -> list:
+    """rank offsets (number of axes appended to the shape of the input) of a result-shape expression, one per arm.
+    `bases` are the names holding the input array, `shapes` the names holding its shape (parameters of a helper that
+    receives `x.shape` instead of `x`)."""
     if e is None or depth > 5:
         return []
     if isinstance(e, ast.Attribute) and e.attr == "shape" and isinstance(e.value, ast.Name) and M.canon(e.value.id) in bases:
         return [0]
+    if isinstance(e, ast.Name) and e.id in shapes and e.id not in M.assigns and e.id not in M.other and e.id not in M.unpacked:
+        return [0]
+    if isinstance(e, ast.Call) and eqx(e.func, "tuple") and len(e.args) == 1 and not e.keywords:
+        return _shape_offsets(S, fi, M, e.args[0], bases, depth + 1, shapes)
     if isinstance(e, ast.BinOp) and isinstance(e.op, ast.Add) and isinstance(e.right, ast.Tuple) \
-            and _shape_offsets(S, fi, M, e.left, bases, depth + 1) == [0]:
+            and _shape_offsets(S, fi, M, e.left, bases, depth + 1, shapes) == [0]:
         return [len(e.right.elts)]
+    if isinstance(e, ast.Tuple) and e.elts and isinstance(e.elts[0], ast.Starred) and not any(isinstance(x, ast.Starred) for x in e.elts[1:]) \
+            and _shape_offsets(S, fi, M, e.elts[0].value, bases, depth + 1, shapes) == [0]:
+        return [len(e.elts) - 1]          # (*x.shape, k) == x.shape + (k,)
     if isinstance(e, ast.IfExp):
-        return _shape_offsets(S, fi, M, e.body, bases, depth + 1) + _shape_offsets(S, fi, M, e.orelse, bases, depth + 1)
+        # a conditional expression is a two-way branch: one arm each
+        a, b = _shape_offsets(S, fi, M, e.body, bases, depth + 1, shapes), _shape_offsets(S, fi, M, e.orelse, bases, depth + 1, shapes)
+        return a + b if a and b else []
     if isinstance(e, ast.Name) and e.id in M.assigns and e.id not in M.other and e.id not in M.unpacked:
         out = []
         for v in M.assigns[e.id]:
-            out += _shape_offsets(S, fi, M, v, bases, depth + 1)
+            o = _shape_offsets(S, fi, M, v, bases, depth + 1, shapes)
+            if not o:
+                return []
+            out += o
         return out
-    if isinstance(e, ast.Call) and isinstance(e.func, ast.Attribute) and isinstance(e.func.value, ast.Name) and e.func.value.id in ("self", fi.cls):
-        # a (new) helper computing the shape: analyse its return statements with the parameter that receives the input
-        h = S.modules[fi.module].funcs.get(f"{fi.cls}.{e.func.attr}")
-        if h is None:
+    if isinstance(e, ast.Call):
+        # a (new) helper computing the shape: analyse its return statements with the parameters that receive the input or its shape
+        h = None
+        if isinstance(e.func, ast.Attribute) and isinstance(e.func.value, ast.Name) and e.func.value.id in ("self", "cls", fi.cls):
+            h = S.modules[fi.module].funcs.get(f"{fi.cls}.{e.func.attr}")
+        elif isinstance(e.func, ast.Name):
+            h = S.modules[fi.module].funcs.get(f"{fi.qual}.{e.func.id}") or S.modules[fi.module].funcs.get(e.func.id)
+        if h is None or h.node.args.vararg or h.node.args.kwarg or any(isinstance(a, ast.Starred) for a in e.args) or any(k.arg is None for k in e.keywords):
             return []
         hp = _params(h)
-        hb = set()
+        hb, hs = set(), set()
         for i, p in enumerate(hp):
             a = kwarg(e, p, i)
             if isinstance(a, ast.Name) and M.canon(a.id) in bases:
                 hb.add(p)
-        if not hb:
+            elif a is not None and _shape_offsets(S, fi, M, a, bases, depth + 1, shapes) == [0]:
+                hs.add(p)
+        if not hb and not hs:
             return []
         HM = Masks(S, h, {})
         out = []
         for r in own_nodes(h.node):
             if isinstance(r, ast.Return) and r.value is not None:
-                o = _shape_offsets(S, h, HM, r.value, {HM.canon(p) for p in hb} | hb, depth + 1)
+                o = _shape_offsets(S, h, HM, r.value, {HM.canon(p) for p in hb} | hb, depth + 1, frozenset(hs))
                 if not o:
                     return []
                 out += o
@@ -499,6 +519,77 @@ def r18_2(chk: Check) -> None:
     chk.floor("R18.2", 6)
 
 
+# ------------------------------------------------------------------ values of a local per branch
+def _facts(t: ast.AST, pol: bool):
+    """atomic (test, polarity) facts implied by a test coming out as `pol`: conjuncts of a true `and`, disjuncts of a false `or`"""
+    while isinstance(t, ast.UnaryOp) and isinstance(t.op, ast.Not):
+        t, pol = t.operand, not pol
+    if isinstance(t, ast.BoolOp) and ((pol and isinstance(t.op, ast.And)) or (not pol and isinstance(t.op, ast.Or))):
+        for v in t.values:
+            yield from _facts(v, pol)
+    else:
+        yield t, pol
+
+
+def _facts_at(g: CFG, cx: Ctx, node) -> list:
+    """facts that hold whenever CFG node `node` is executed: every if / while test that it can only be reached through with one
+    outcome (if/else arm or fall-through after a guard clause); named booleans are written out first"""
+    out = []
+    for t in g.nodes:
+        if g.kind.get(t) != "test" or t is node:
+            continue
+        for pol in (True, False):
+            if _only_via(g, t, pol, node):
+                out += list(_facts(cx.resolve(t), pol))
+    return out
+
+
+def _survival_facts(g: CFG, cx: Ctx, d, name: str, at) -> list:
+    """facts that hold whenever the value assigned to `name` at node `d` is still the one read at node `at`: a default that is
+    overwritten inside `if t:` survives only when t came out false (default-then-overwrite == if/else assignment)"""
+    out = []
+    special = (CFG.ENTRY, CFG.EXIT, CFG.RAISE)
+
+    def kills(q):
+        return q is not d and q not in special and name in g.defs_of(q)
+    for t in g.nodes:
+        if g.kind.get(t) != "test" or t is at or t is d:
+            continue
+        if at in g.reachable(d, avoid=lambda q: kills(q) or q is t):
+            continue              # a path d ->* at that does not evaluate t
+        for pol in (True, False):
+            other = g.branch(t, not pol)
+            if other and not any(b is at or (not kills(b) and at in g.reachable(b, avoid=kills)) for b in other):
+                out += list(_facts(cx.resolve(t), pol))
+    return out
+
+
+def _block_cases(g: CFG, cx: Ctx, e: ast.AST, at, facts=(), depth: int = 0) -> list:
+    """[(facts, value)]: the values expression `e` can have at CFG node `at`, each with the facts under which it is taken.
+    A local stands for its reaching definitions (if/else assignment, default then overwrite), a conditional expression for its two arms."""
+    facts = list(facts)
+    if depth > 6 or at is None:
+        return [(facts, e)]
+    if isinstance(e, ast.IfExp):
+        t = cx.resolve(e.test)
+        return _block_cases(g, cx, e.body, at, facts + list(_facts(t, True)), depth + 1) \
+            + _block_cases(g, cx, e.orelse, at, facts + list(_facts(t, False)), depth + 1)
+    if isinstance(e, ast.Name):
+        defs = [d for d in g.reaching_defs(at, e.id) if d is not CFG.ENTRY]
+        if defs and all(isinstance(d, (ast.Assign, ast.AnnAssign)) and d.value is not None
+                        and all(isinstance(t, ast.Name) for t in (d.targets if isinstance(d, ast.Assign) else [d.target])) for d in defs):
+            out = []
+            for d in defs:
+                out += _block_cases(g, cx, d.value, d, facts + _facts_at(g, cx, d) + _survival_facts(g, cx, d, e.id, at), depth + 1)
+            return out
+        return [(facts, e)]
+    r = cx.resolve(e)
+    if isinstance(r, ast.IfExp):      # a simple helper returning a conditional expression
+        return _block_cases(g, cx, r, at, facts, depth + 1)
+    return [(facts, r)]
+
+
+
 # ------------------------------------------------------------------ R18.3
 def _vector_when(t: ast.AST, fx: str, cx: Ctx):
     """True / False when the test being true means vector- / scalar-valued data, else None"""
@@ -525,45 +616,49 @@ def r18_3(chk: Check) -> None:
         cx = M.cx
         X, FX = prm[0], prm[1]
         g = CFG(fi.node)
-        # the per-point masks: whatever indexes the abscissa array
-        used = set()
+        # the per-point masks: whatever indexes the abscissa array.  Every value such a mask can have where it is used (reaching
+        # definitions, arms of a conditional expression) is judged under the rank test it is taken under
+        uses = []
         for x in own_nodes(fi.node):
-            if isinstance(x, ast.Subscript) and isinstance(x.value, ast.Name) and M.canon(x.value.id) == X and isinstance(x.slice, ast.Name):
-                used.add(x.slice.id)
-        tests = [(t, _vector_when(t, FX, cx)) for t in g.nodes if g.kind.get(t) == "test"]
-        tests = [(t, v) for t, v in tests if v is not None]
+            if isinstance(x, ast.Subscript) and isinstance(x.ctx, ast.Load) and isinstance(x.value, ast.Name) and M.canon(x.value.id) == X:
+                if isinstance(x.slice, ast.Name) or any(isinstance(c, ast.Call) and (dotted(c.func) or "").endswith("isfinite") for c in ast.walk(cx.resolve(x.slice))):
+                    uses.append(x)
         found = 0
-        for st in sorted([s_ for s_ in own_nodes(fi.node) if isinstance(s_, ast.Assign)], key=lambda s_: s_.lineno):
-            if not (len(st.targets) == 1 and isinstance(st.targets[0], ast.Name) and st.targets[0].id in used):
+        seen = set()
+        for u in sorted(uses, key=lambda u_: (u_.lineno, u_.col_offset)):
+            at = g.node_of(u)
+            if at is None:
                 continue
-            vec = None
-            for t, v in tests:
-                if _only_via(g, t, True, st):
-                    vec = v
-                elif _only_via(g, t, False, st):
-                    vec = not v
-            if vec is None:
-                continue
-            v = cx.resolve(st.value)
-            kind, axis = "none", None
-            if isinstance(v, ast.Call) and (dotted(v.func) or "").split(".")[-1] in ("all", "any"):
-                a = kwarg(v, "axis", 1)
-                kind = "reduce_all" if a is None else "reduce_axis"
-                if a is not None:
-                    try:
-                        axis = ast.literal_eval(a)
-                    except Exception:
-                        axis = n(a)
-            inner_ok = any(isinstance(c, ast.Call) and (dotted(c.func) or "").endswith("isfinite") for c in ast.walk(v))
-            if vec:
-                ok = kind == "reduce_axis" and axis in (1, -1) and inner_ok
-                want = "np.all(np.isfinite(fx), axis=-1): one flag per abscissa"
-            else:
-                ok = kind == "none" and inner_ok
-                want = "np.isfinite(fx): one flag per abscissa (a whole-array reduction is a single flag for the table)"
-            found += 1
-            chk.ob("R18.3", fi.where(st), f"{fname}: finiteness mask for {'vector' if vec else 'scalar'}-valued data has the rank of x "
-                   f"({want})", ok, n(st), key=f"mask|{fname}|{'vector' if vec else 'scalar'}")
+            for facts, v in _block_cases(g, cx, u.slice, at, _facts_at(g, cx, at)):
+                if isinstance(v, ast.Name):
+                    continue          # provenance not followed (parameter, loop variable, unpacked result)
+                vec = None
+                for t, pol in facts:
+                    w = _vector_when(t, FX, cx)
+                    if w is not None:
+                        vec = w if pol else not w
+                if vec is None or (vec, nf(v, cx)) in seen:
+                    continue
+                seen.add((vec, nf(v, cx)))
+                kind, axis = "none", None
+                if isinstance(v, ast.Call) and (dotted(v.func) or "").split(".")[-1] in ("all", "any"):
+                    a = kwarg(v, "axis", 1)
+                    kind = "reduce_all" if a is None else "reduce_axis"
+                    if a is not None:
+                        try:
+                            axis = ast.literal_eval(a)
+                        except Exception:
+                            axis = n(a)
+                inner_ok = any(isinstance(c, ast.Call) and (dotted(c.func) or "").endswith("isfinite") for c in ast.walk(v))
+                if vec:
+                    ok = kind == "reduce_axis" and axis in (1, -1) and inner_ok
+                    want = "np.all(np.isfinite(fx), axis=-1): one flag per abscissa"
+                else:
+                    ok = kind == "none" and inner_ok
+                    want = "np.isfinite(fx): one flag per abscissa (a whole-array reduction is a single flag for the table)"
+                found += 1
+                chk.ob("R18.3", fi.where(v if hasattr(v, "lineno") else u), f"{fname}: finiteness mask for {'vector' if vec else 'scalar'}-valued data has the rank of x "
+                       f"({want})", ok, n(v), key=f"mask|{fname}|{'vector' if vec else 'scalar'}")
         if found < 2:
             raise AnchorMissing(f"{fname}: finiteness masks not found")
     chk.floor("R18.3", 4)
@@ -706,6 +801,27 @@ def r18_4(chk: Check) -> None:
 
 
 # ------------------------------------------------------------------ R18.5
+def _is_arange(v: ast.AST) -> bool:
+    return isinstance(v, ast.Call) and (dotted(v.func) or "") in ("np.arange", "numpy.arange")
+
+
+def _is_empty_array(v: ast.AST, cx: Ctx) -> bool:
+    return any(eqx(v, p, cx) for p in ("np.array([])", "np.array(())", "np.asarray([])", "np.empty(0)", "np.empty((0,))", "np.zeros(0)", "np.zeros((0,))"))
+
+
+def _nonpositive_const(e: ast.AST) -> bool:
+    try:
+        v = ast.literal_eval(e)
+    except Exception:
+        return False
+    return isinstance(v, (int, float)) and v <= 0
+
+
+def _holds(facts: list, pos: list, neg: list, cx: Ctx) -> bool:
+    """one of the facts is a spelling of a condition in `pos` (or the negation of one in `neg`)"""
+    return any(any(eqx(t, p_, cx) for p_ in (pos if pol else neg)) for t, pol in facts)
+
+
 def r18_5(chk: Check) -> None:
     S = chk.src
     ci = S.cls(IF)
@@ -736,6 +852,10 @@ def r18_5(chk: Check) -> None:
            writers.get("_interpolate", set()) == set(STATE), str(sorted(writers.get("_interpolate", set()))), key="all-six")
     # pairing inside _interpolate: spline(xF, fxF); rangeMin=min(xF); rangeMax=max(xF); points=xF; values=fxF; (xF,fxF)=_dropBadPoints(x,fx)
     ex = Extractor(S)
+    # the rule asks *which* filter the stored table went through: _dropBadPoints stays an uninterpreted application even when it is
+    # (re)written as straight-line code with conditional expressions, which the extractor would otherwise look through as a "simple helper"
+    look_through = ex.inline
+    ex.inline = lambda name: name.split(".")[-1] != "_dropBadPoints" and look_through(name)
     ps = [p for p in ex.paths(f_int) if p.raised is None]
     if len(ps) != 1:
         raise Undecided("_interpolate: expected straight-line code")
@@ -758,50 +878,59 @@ def r18_5(chk: Check) -> None:
     chk.touch(f_ext.name)
     ce = Ctx(S, f_ext)
     ME = Masks(S, f_ext, {})
-    cats = [c for c in calls_in(f_ext.node, "concatenate") if c.args and isinstance(ce.resolve(c.args[0]), (ast.Tuple, ast.List))]
-    xs = [ce.resolve(c.args[0]).elts for c in cats if has(c.args[0], "self._interpolationPoints", ce)]
-    fs = [ce.resolve(c.args[0]).elts for c in cats if has(c.args[0], "self._interpolationValues", ce)]
+    ge = CFG(f_ext.node)
+
+    def seq(c):
+        """the sequence handed to np.concatenate, a local holding the tuple looked through (its elements are left as written)"""
+        t = kwarg(c, "arrays", 0)
+        for _ in range(4):
+            if isinstance(t, ast.Name) and t.id in ce.local_defs():
+                t = ce.local_defs()[t.id]
+        return t
+    cats = [c for c in calls_in(f_ext.node, "concatenate") if isinstance(seq(c), (ast.Tuple, ast.List))]
+    xs = [(c, seq(c).elts) for c in cats if has(seq(c), "self._interpolationPoints", ce)]
+    fs = [(c, seq(c).elts) for c in cats if has(seq(c), "self._interpolationValues", ce)]
     ok = False
     detail = "; ".join(n(c) for c in cats)
     px = pf = None
-    if len(xs) == 1 and len(fs) == 1 and len(xs[0]) == 3 and len(fs[0]) == 3:
-        px, pf = xs[0], fs[0]
+    if len(xs) == 1 and len(fs) == 1 and len(xs[0][1]) == 3 and len(fs[0][1]) == 3:
+        px, pf = xs[0][1], fs[0][1]
 
         def is_f_of(v, p) -> bool:
             """value block v is f(point block p)"""
             r = ce.resolve(v, keep_calls={"_functionImplementation"})
             return any(isinstance(c, ast.Call) and (dotted(c.func) or "").endswith("_functionImplementation")
-                       and _arg(S, c, 0) is not None and same(ce.resolve(_arg(S, c, 0)), p, ce) for c in ast.walk(r))
+                       and _arg(S, c, 0) is not None and same(ce.resolve(_arg(S, c, 0)), ce.resolve(p), ce) for c in ast.walk(r))
         ok = (has(px[1], "self._interpolationPoints", ce) and has(pf[1], "self._interpolationValues", ce)
               and is_f_of(pf[0], px[0]) and is_f_of(pf[2], px[2]))
     chk.ob("R18.5", f_ext.where(), "extension concatenates (below, old, above) in the same order for abscissae and values, "
            "each new value block being f(its point block)", ok, detail[:300], key="extend-order")
-    # new blocks lie strictly outside the old range
+    # new blocks lie strictly outside the old range.  Every value a block can have where it is concatenated (reaching definitions,
+    # arms of conditional expressions) is either an empty array or one arange(...) taken only under the range test of its side
     okb = False
-    if px is not None and isinstance(px[0], ast.Name) and isinstance(px[2], ast.Name):
-        blocks = {}
-        for guards, st in walk_guarded(f_ext.node):
-            if isinstance(st, ast.Assign) and len(st.targets) == 1 and isinstance(st.targets[0], ast.Name) and st.targets[0].id in (px[0].id, px[2].id):
-                v = ce.resolve(st.value)
-                if isinstance(v, ast.Call) and (dotted(v.func) or "").endswith("arange"):
-                    blocks.setdefault(st.targets[0].id, []).append((guards, v))
-
-        def conj(guards) -> list:
-            out = []
-            for t, pol in guards:
-                if isinstance(t, tuple) or not pol:
-                    continue
-                out += list(t.values) if isinstance(t, ast.BoolOp) and isinstance(t.op, ast.And) else [t]
-            return out
-        lo, hi = blocks.get(px[0].id, []), blocks.get(px[2].id, [])
-        if len(lo) == 1 and len(hi) == 1 and px[0].id != px[2].id:
-            (gl, al), (gh, ah) = lo[0], hi[0]
+    prm = _params(f_ext)
+    if len(prm) < 2:
+        raise AnchorMissing("extendInterpolationTable: (newMin, newMax, ...) parameters not found")
+    NEW_MIN, NEW_MAX = prm[0], prm[1]
+    if px is not None:
+        at = ge.node_of(xs[0][0])
+        lo, hi = _block_cases(ge, ce, px[0], at), _block_cases(ge, ce, px[2], at)
+        ar_l = [(f_, v) for f_, v in lo if _is_arange(v)]
+        ar_h = [(f_, v) for f_, v in hi if _is_arange(v)]
+        rest = [v for f_, v in lo + hi if not _is_arange(v) and not _is_empty_array(v, ce)]
+        if len(ar_l) == 1 and len(ar_h) == 1 and not rest and not same(ce.resolve(px[0]), ce.resolve(px[2]), ce):
+            (gl, al), (gh, ah) = ar_l[0], ar_h[0]
             a_l = [kwarg(al, "start", 0), kwarg(al, "stop", 1)] if len(al.args) + len(al.keywords) >= 2 else [None, None]
-            a_h = [kwarg(ah, "start", 0), kwarg(ah, "stop", 1), kwarg(ah, "step", 2)]
-            b = match(a_h[0], "self._rangeMax + __h", ce) if a_h[0] is not None else None
-            okb = (any(eqx(t, "newMin < self._rangeMin", ce) for t in conj(gl)) and eqx(a_l[0], "newMin", ce) and eqx(a_l[1], "self._rangeMin", ce)
-                   and any(eqx(t, "newMax > self._rangeMax", ce) for t in conj(gh)) and b is not None and a_h[2] is not None and eqx(a_h[2], b["h"], ce))
-            detail = (f"lower: if {' and '.join(n(t) for t in conj(gl))}: {n(al)}; upper: if {' and '.join(n(t) for t in conj(gh))}: {n(ah)}")
+            a_h = [kwarg(ah, "start", 0), kwarg(ah, "stop", 1), kwarg(ah, "step", 2)] if len(ah.args) + len(ah.keywords) >= 3 else [None, None, None]
+            # start == rangeMax + step, whatever the step is called or however it is written out
+            step_ok = a_h[0] is not None and a_h[2] is not None and not _nonpositive_const(a_h[2]) and same(
+                a_h[0], ast.BinOp(left=parse_pattern("self._rangeMax"), op=ast.Add(), right=a_h[2]), ce)
+            okb = (_holds(gl, [f"{NEW_MIN} < self._rangeMin"], [f"{NEW_MIN} >= self._rangeMin"], ce) and eqx(a_l[0], NEW_MIN, ce) and eqx(a_l[1], "self._rangeMin", ce)
+                   and _holds(gh, [f"{NEW_MAX} > self._rangeMax"], [f"{NEW_MAX} <= self._rangeMax"], ce) and step_ok)
+            detail = (f"lower: if {' and '.join(('' if pol else 'not ') + n(t) for t, pol in gl)}: {n(al)}; "
+                      f"upper: if {' and '.join(('' if pol else 'not ') + n(t) for t, pol in gh)}: {n(ah)}")
+        else:
+            detail = f"lower block: {[n(v)[:60] for _, v in lo]}; upper block: {[n(v)[:60] for _, v in hi]}"
     chk.ob("R18.5", f_ext.where(), "new abscissa blocks lie strictly below _rangeMin / strictly above _rangeMax "
            "(arange(newMin, rangeMin, h) and arange(rangeMax + h, ..., h)), so abscissae stay increasing", okb, detail[:300],
            key="extend-outside")
